@@ -4,12 +4,15 @@
 //!
 //! input line:  <server-tcp|server-rtu|client-tcp|client-rtu> <script> <ncmds> [<request hex>]
 //!   script  = comma separated write steps: aN = take at most N bytes of the write offered, b = take
-//!             nothing until released, `-` = no script (everything is taken at once)
+//!             nothing until released, B = take nothing EVER AGAIN (the harness then lets 3 s of virtual time pass:
+//!             the client's request timeout of 1 s elapses), `-` = no script (everything is taken at once)
 //!   ncmds   = how many decode-level changes are sent each time the write is parked at a `b` step
 //!             (server: ServerCommand::ChangeDecoding through the session's command channel;
 //!              client: Channel::set_decode_level), before the step is released
 //!   server: the request frame (hex) is delivered first; client: one read-holding-registers(unit 1, 0, 3)
-//! output line: every byte the transport accepted, in order (hex), `-` if none; then ` parked=<times the write was parked>`
+//! output line: every byte the transport accepted, in order (hex), `-` if none; then ` parked=<times the write was parked>`;
+//!              client roles also ` result=<what the first request ended as|pending>` ` session=<how the session ended|running>`
+//!              (a second request is queued behind the first: nothing of it may appear if the session ended)
 //! optional argument: --decode min|max
 use crate::util::{hex, unhex};
 use crate::wire::{Wire, WriteStep};
@@ -35,7 +38,7 @@ fn parse_script(s: &str) -> Vec<WriteStep> {
     }
     s.split(',')
         .map(|t| match t {
-            "b" => WriteStep::Block,
+            "b" | "B" => WriteStep::Block,
             t if t.starts_with('a') => WriteStep::Accept(t[1..].parse().unwrap()),
             t => panic!("bad write step {t:?}"),
         })
@@ -53,6 +56,8 @@ fn level(i: usize) -> DecodeLevel {
 async fn run_case(line: String, decode: DecodeLevel) -> String {
     let p: Vec<&str> = line.split_whitespace().collect();
     let (role, script, ncmds) = (p[0], parse_script(p[1]), p[2].parse::<usize>().unwrap());
+    // the index of the write step that is never released, if any
+    let forever = p[1].split(',').filter(|t| *t == "b" || *t == "B").position(|t| t == "B");
     let wire = Wire::new();
     wire.script_writes(&script);
     let mut parked = 0;
@@ -84,12 +89,26 @@ async fn run_case(line: String, decode: DecodeLevel) -> String {
         let framing = if role == "client-tcp" { Framing::Tcp } else { Framing::RtuResponse };
         let (channel, mut session) = ClientSession::new(framing, 64, decode, None);
         channel.enable().await.unwrap();
-        let ch = channel.clone();
-        let _req = tokio::spawn(async move {
-            ch.read_holding_registers(RequestParam::new(UnitId::new(1), Duration::from_secs(1)), AddressRange::try_from(0, 3).unwrap())
-                .await
-        });
+        let result: std::sync::Arc<std::sync::Mutex<Option<String>>> = Default::default();
+        for k in 0..2 {
+            let ch = channel.clone();
+            let res = result.clone();
+            tokio::spawn(async move {
+                let r = ch
+                    .read_holding_registers(RequestParam::new(UnitId::new(1), Duration::from_secs(1)), AddressRange::try_from(0, 3).unwrap())
+                    .await;
+                if k == 0 {
+                    *res.lock().unwrap() = Some(match r {
+                        Ok(_) => "Ok".to_string(),
+                        Err(rodbus::RequestError::Io(kind)) => format!("Io({kind:?})"),
+                        Err(e) => format!("{e:?}"),
+                    });
+                }
+            });
+            crate::wire::settle().await;
+        }
         let driver = async {
+            let mut blocks = 0;
             for _ in 0..40 {
                 crate::wire::settle().await;
                 if w.write_is_blocked() {
@@ -98,14 +117,24 @@ async fn run_case(line: String, decode: DecodeLevel) -> String {
                         let _ = channel.set_decode_level(level(i)).await;
                     }
                     crate::wire::settle().await;
+                    if forever == Some(blocks) {
+                        // the transmit path never recovers: let the request's timeout elapse
+                        tokio::time::sleep(Duration::from_secs(3)).await;
+                        break;
+                    }
+                    blocks += 1;
                     w.release_write();
                 }
             }
         };
-        tokio::select! {
-            _ = session.run(Box::new(wire.clone())) => {}
-            _ = driver => {}
-        }
+        let session_end = tokio::select! {
+            e = session.run(Box::new(wire.clone())) => e,
+            _ = driver => "running".to_string(),
+        };
+        crate::wire::settle().await;
+        let out = wire.out_flat();
+        let res = result.lock().unwrap().clone().unwrap_or("pending".to_string());
+        return format!("{} parked={} result={} session={}", if out.is_empty() { "-".to_string() } else { hex(&out) }, parked, res, session_end);
     }
     let out = wire.out_flat();
     format!("{} parked={}", if out.is_empty() { "-".to_string() } else { hex(&out) }, parked)
